@@ -270,38 +270,51 @@ def Layer.isAuth : Layer → Bool
   | .auth _ _ => true
   | _ => false
 
-theorem runChain_append (auth : Option String) (a b : List Layer) (ha : ∀ l ∈ a, l.isAuth = false) :
+theorem runChain_append (auth : Option String) (a b : List Layer) (ha : ∀ l ∈ a, l.isAuth = false ∧ l.stops = false) :
     runChain auth (a ++ b) = (a.map Layer.tag ++ (runChain auth b).1, (runChain auth b).2) := by
   induction a with
   | nil => rfl
   | cons l a ih =>
-    have hl := ha l (List.mem_cons_self ..)
+    obtain ⟨hl, hs⟩ := ha l (List.mem_cons_self ..)
     have ih' := ih fun x hx => ha x (List.mem_cons_of_mem _ hx)
     cases l with
     | auth x y => cases hl
-    | chainMw i => simp only [List.cons_append, runChain, ih', List.map_cons]
-    | use k => simp only [List.cons_append, runChain, ih', List.map_cons]
-    | routeMw i => simp only [List.cons_append, runChain, ih', List.map_cons]
+    | chainMw i => simp only [List.cons_append, runChain, hs, ih', List.map_cons]; rfl
+    | use k => simp only [List.cons_append, runChain, hs, ih', List.map_cons]; rfl
+    | routeMw i => simp only [List.cons_append, runChain, hs, ih', List.map_cons]; rfl
+
+/-- a user middleware that answers itself ends the way down: nothing behind it runs, the handler is not reached. -/
+theorem runChain_stops (auth : Option String) (l : Layer) (rest : List Layer) (ha : l.isAuth = false)
+    (hs : l.stops = true) : runChain auth (l :: rest) = ([l.tag], .stopped) := by
+  cases l with
+  | auth x y => cases ha
+  | chainMw i => simp only [runChain, hs, if_true]
+  | use k => simp only [runChain, hs, if_true]
+  | routeMw i => simp only [runChain, hs, if_true]
 
 /-- **The route handler is reached iff the group's own JWT settings accept the token** — whatever custom chain
-(`WithChain`), `Server.Use` middlewares and `rest.WithMiddlewares` wrappers surround it; the custom chain's
-middlewares run first (also in front of a 401), the `Use` middlewares (in `Use` order) and then the route's own
-middlewares run only behind the Authorize handler. -/
+(`WithChain`), `Server.Use` middlewares and `rest.WithMiddlewares` wrappers surround it, as long as these call `next`
+(ids below 900); the custom chain's middlewares run first (also in front of a 401), the `Use` middlewares (in `Use`
+order) and then the route's own middlewares run only behind the Authorize handler. -/
 theorem chain_reaches_handler_iff (chain : Option Nat) (jwt : Option (String × String)) (uses : List Nat) (nmw : Nat)
-    (auth : Option String) :
-    (runChain auth (bindChain chain jwt uses nmw)).2 = tokenOk jwt auth ∧
+    (auth : Option String) (hc : chain.getD 0 < 900) (hu : ∀ k ∈ uses, k < 900) (hn : nmw < 900) :
+    (runChain auth (bindChain chain jwt uses nmw)).2 = (if tokenOk jwt auth then .handler else .unauthorized) ∧
     (runChain auth (bindChain chain jwt uses nmw)).1 =
       ((List.range (chain.getD 0)).map fun i => "c" ++ toString (i + 1)) ++
       (if tokenOk jwt auth then uses.map (fun k => "u" ++ toString k) ++ (List.range nmw).map (fun i => toString (i + 1))
        else []) := by
-  have hA : ∀ l ∈ (List.range (chain.getD 0)).map (fun i => Layer.chainMw (i + 1)), l.isAuth = false := by
-    intro l hl; simp only [List.mem_map] at hl; obtain ⟨i, _, rfl⟩ := hl; rfl
-  have hUM : ∀ l ∈ uses.map Layer.use ++ (List.range nmw).map (fun i => Layer.routeMw (i + 1)), l.isAuth = false := by
+  have hA : ∀ l ∈ (List.range (chain.getD 0)).map (fun i => Layer.chainMw (i + 1)), l.isAuth = false ∧ l.stops = false := by
+    intro l hl; simp only [List.mem_map, List.mem_range] at hl; obtain ⟨i, hi, rfl⟩ := hl
+    exact ⟨rfl, by simp only [Layer.stops, decide_eq_false_iff_not]; omega⟩
+  have hUM : ∀ l ∈ uses.map Layer.use ++ (List.range nmw).map (fun i => Layer.routeMw (i + 1)),
+      l.isAuth = false ∧ l.stops = false := by
     intro l hl
-    simp only [List.mem_append, List.mem_map] at hl
-    rcases hl with ⟨k, _, rfl⟩ | ⟨i, _, rfl⟩ <;> rfl
+    simp only [List.mem_append, List.mem_map, List.mem_range] at hl
+    rcases hl with ⟨k, hk, rfl⟩ | ⟨i, hi, rfl⟩
+    · exact ⟨rfl, by have := hu k hk; simp only [Layer.stops, decide_eq_false_iff_not]; omega⟩
+    · exact ⟨rfl, by simp only [Layer.stops, decide_eq_false_iff_not]; omega⟩
   have hum : runChain auth (uses.map Layer.use ++ (List.range nmw).map (fun i => Layer.routeMw (i + 1))) =
-      (uses.map (fun k => "u" ++ toString k) ++ (List.range nmw).map (fun i => toString (i + 1)), true) := by
+      (uses.map (fun k => "u" ++ toString k) ++ (List.range nmw).map (fun i => toString (i + 1)), .handler) := by
     have := runChain_append auth _ [] hUM
     simp only [List.append_nil] at this
     rw [this]
@@ -321,9 +334,43 @@ theorem chain_reaches_handler_iff (chain : Option Nat) (jwt : Option (String × 
     · have : tokenOk (some (a, b)) auth = false := by simpa using hok
       simp [this, Function.comp_def, Layer.tag]
 
-example : runChain (some "s1") (bindChain (some 2) (some ("s2", "s1")) [7] 1) = (["c1", "c2", "u7", "1"], true) := by decide
-example : runChain (some "zz") (bindChain (some 2) (some ("s2", "s1")) [7] 1) = (["c1", "c2"], false) := by decide
-example : runChain none (bindChain none none [1, 2] 0) = (["u1", "u2"], true) := by decide
+/-- **A `Server.Use` middleware that does not call `next` short-circuits every route**: with an accepted token the
+middlewares in front of it run (custom chain, the earlier `Use` ones, itself), then NOTHING else — no later
+middleware, not the route handler; a rejected token is still answered 401 before any `Use` middleware runs. -/
+theorem chain_short_circuit (chain : Option Nat) (jwt : Option (String × String)) (pre post : List Nat) (k nmw : Nat)
+    (auth : Option String) (hc : chain.getD 0 < 900) (hp : ∀ x ∈ pre, x < 900) (hk : k ≥ 900) :
+    runChain auth (bindChain chain jwt (pre ++ k :: post) nmw) =
+      (((List.range (chain.getD 0)).map fun i => "c" ++ toString (i + 1)) ++
+        (if tokenOk jwt auth then pre.map (fun x => "u" ++ toString x) ++ ["u" ++ toString k] else []),
+       if tokenOk jwt auth then .stopped else .unauthorized) := by
+  have hA : ∀ l ∈ (List.range (chain.getD 0)).map (fun i => Layer.chainMw (i + 1)), l.isAuth = false ∧ l.stops = false := by
+    intro l hl; simp only [List.mem_map, List.mem_range] at hl; obtain ⟨i, hi, rfl⟩ := hl
+    exact ⟨rfl, by simp only [Layer.stops, decide_eq_false_iff_not]; omega⟩
+  have hP : ∀ l ∈ pre.map Layer.use, l.isAuth = false ∧ l.stops = false := by
+    intro l hl; simp only [List.mem_map] at hl; obtain ⟨x, hx, rfl⟩ := hl
+    exact ⟨rfl, by have := hp x hx; simp only [Layer.stops, decide_eq_false_iff_not]; omega⟩
+  have hstop : ∀ rest, runChain auth (pre.map Layer.use ++ (Layer.use k :: rest)) =
+      (pre.map (fun x => "u" ++ toString x) ++ ["u" ++ toString k], .stopped) := by
+    intro rest
+    rw [runChain_append auth _ _ hP, runChain_stops auth (.use k) rest rfl (by simp [Layer.stops, hk])]
+    simp [Layer.tag, Function.comp_def]
+  unfold bindChain
+  rw [List.append_assoc, List.append_assoc, runChain_append auth _ _ hA]
+  simp only [List.map_map, List.map_append, List.map_cons, List.append_assoc, List.cons_append]
+  cases jwt with
+  | none => simp [hstop, tokenOk, Function.comp_def, Layer.tag]
+  | some ab =>
+    obtain ⟨a, b⟩ := ab
+    simp only [List.cons_append, List.nil_append, runChain]
+    by_cases hok : tokenOk (some (a, b)) auth = true
+    · simp [hok, hstop, Function.comp_def, Layer.tag]
+    · have : tokenOk (some (a, b)) auth = false := by simpa using hok
+      simp [this, Function.comp_def, Layer.tag]
+
+example : runChain (some "s1") (bindChain (some 2) (some ("s2", "s1")) [7] 1) = (["c1", "c2", "u7", "1"], .handler) := by decide
+example : runChain (some "zz") (bindChain (some 2) (some ("s2", "s1")) [7] 1) = (["c1", "c2"], .unauthorized) := by decide
+example : runChain none (bindChain none none [1, 2] 0) = (["u1", "u2"], .handler) := by decide
+example : runChain none (bindChain (some 1) none [1, 901, 2] 3) = (["c1", "u1", "u901"], .stopped) := by decide
 
 /-! ### the driver's enumeration of all iteration orders -/
 
@@ -449,42 +496,122 @@ theorem api_panicking_calls_register_nothing (ops : List ApiOp) : ∀ (a : Api),
 example : (ApiOp.add 0 [.pfx "/v1", .jwt "short"]).panics = true ∧ (ApiOp.add 0 [.jwtTransition "secret-aaaa" ""]).panics = false := by
   decide
 
-/-! ### `WithCors` (as implemented) -/
+/-! ### the router wrappers: `WithCors` / `WithCorsHeaders` / `WithCustomCors` / `WithFileServer` (as implemented) -/
 
-/-- **witness (as implemented): under `WithCors` an `OPTIONS` request is never dispatched** — the CORS middleware in front
-of the patRouter answers it, whatever routes are registered; every other method goes to the patRouter unchanged, whose
-405 situation is answered by `cors.NotAllowedHandler` (404, no Allow header) unless a later `WithNotAllowedHandler`
-replaced it.  The property's clauses hold for such a server with `OPTIONS` requests excluded and the CORS handler as
-the custom not-allowed handler (`assumptions`). -/
-theorem cors_preflight_never_dispatches (s : Server) (hc : s.cors = true) (m p : String) :
-    s.serveHTTP "OPTIONS" p = .preflight ∧
-    (m ≠ "OPTIONS" → s.serveHTTP m p = .router (s.router.serveHTTP m p)) := by
-  constructor
-  · simp [Server.serveHTTP, hc]
-  · intro hm
-    have : (m == "OPTIONS") = false := by simpa using hm
-    simp [Server.serveHTTP, this]
+/-- **When the patRouter is asked, it is asked the request as it came**: every wrapper either answers itself or passes
+method and path on unchanged. -/
+theorem wrapServe_router (pr : PatRouter) (m p : String) (ws : List Wrapper) (resp : Response)
+    (h : wrapServe pr m p ws = .router resp) : resp = pr.serveHTTP m p := by
+  induction ws with
+  | nil => simp only [wrapServe, SrvResponse.router.injEq] at h; exact h.symm
+  | cons w ws ih =>
+    cases w with
+    | cors =>
+      simp only [wrapServe] at h
+      split at h
+      · cases h
+      · exact ih h
+    | files d ns =>
+      simp only [wrapServe] at h
+      split at h
+      · cases h
+      · exact ih h
 
-theorem no_cors_is_the_router (s : Server) (hc : s.cors = false) (m p : String) :
+/-- a file is served only for a `GET`. -/
+theorem canServe_get {d : String} {ns : List String} {m p f : String} (h : canServe d ns m p = some f) : m = "GET" := by
+  unfold canServe at h
+  split at h
+  · rename_i hc; simp only [Bool.and_eq_true, beq_iff_eq] at hc; exact hc.1.1
+  · cases h
+
+/-- **The CORS middleware answers exactly the `OPTIONS` requests** of a server with a `corsRouter` (any of `WithCors`,
+`WithCorsHeaders`, `WithCustomCors`), wherever it sits among the wrappers (a file server only ever takes `GET`s). -/
+theorem wrapServe_preflight_iff (pr : PatRouter) (m p : String) (ws : List Wrapper) :
+    wrapServe pr m p ws = .preflight ↔ (m = "OPTIONS" ∧ Wrapper.cors ∈ ws) := by
+  induction ws with
+  | nil => simp [wrapServe]
+  | cons w ws ih =>
+    cases w with
+    | cors =>
+      simp only [wrapServe]
+      by_cases hm : m = "OPTIONS"
+      · simp [hm]
+      · have : (m == "OPTIONS") = false := by simpa using hm
+        simp only [this, Bool.false_eq_true, if_false, ih]
+        simp [hm]
+    | files d ns =>
+      simp only [wrapServe]
+      cases hc : canServe d ns m p with
+      | some f =>
+        have hg := canServe_get hc
+        simp only [reduceCtorEq, false_iff, not_and]
+        intro hm; rw [hg] at hm; exact absurd hm (by decide)
+      | none => simp only [ih, List.mem_cons, reduceCtorEq, false_or]
+
+/-- **A file is served exactly when some file server in front can serve it** (a `GET` whose RAW path lies below its
+directory and names one of its files) — then no route is asked, also when a `GET` route matches (as implemented). -/
+theorem wrapServe_file (pr : PatRouter) (m p f : String) (ws : List Wrapper) (h : wrapServe pr m p ws = .file f) :
+    m = "GET" ∧ ∃ d ns, Wrapper.files d ns ∈ ws ∧ canServe d ns m p = some f := by
+  induction ws with
+  | nil => simp [wrapServe] at h
+  | cons w ws ih =>
+    cases w with
+    | cors =>
+      simp only [wrapServe] at h
+      split at h
+      · cases h
+      · obtain ⟨h1, d, ns, hm, hc⟩ := ih h
+        exact ⟨h1, d, ns, List.mem_cons_of_mem _ hm, hc⟩
+    | files d ns =>
+      simp only [wrapServe] at h
+      cases hc : canServe d ns m p with
+      | some f' =>
+        rw [hc] at h
+        simp only [SrvResponse.file.injEq] at h
+        subst h
+        exact ⟨canServe_get hc, d, ns, List.mem_cons_self .., hc⟩
+      | none =>
+        rw [hc] at h
+        obtain ⟨h1, d', ns', hm, hc'⟩ := ih h
+        exact ⟨h1, d', ns', List.mem_cons_of_mem _ hm, hc'⟩
+
+/-- without wrappers the server's router is the patRouter. -/
+theorem no_wrappers_is_the_router (s : Server) (hc : s.wrappers = []) (m p : String) :
     s.serveHTTP m p = .router (s.router.serveHTTP m p) := by
-  simp [Server.serveHTTP, hc]
+  simp [Server.serveHTTP, hc, wrapServe]
+
+/-- **witness (as implemented): under `WithCors` an `OPTIONS` request is never dispatched**, whatever routes are
+registered; every other method is passed on. -/
+theorem cors_preflight_never_dispatches (s : Server) (hc : s.cors = true) (p : String) :
+    s.serveHTTP "OPTIONS" p = .preflight := by
+  unfold Server.serveHTTP
+  rw [wrapServe_preflight_iff]
+  exact ⟨rfl, by simpa [Server.cors] using hc⟩
 
 example : (newServer [.cors]).cors = true ∧ (newServer [.cors]).router.notAllowed = some corsNA ∧
-    (newServer [.cors, .router]).cors = false ∧ (newServer [.cors, .notAllowed (some 8)]).router.notAllowed = some 8 := by decide
+    (newServer [.corsHeaders, .router]).cors = false ∧ (newServer [.customCors, .notAllowed (some 8)]).router.notAllowed = some 8 := by
+  decide
+-- a file shadows a matching GET route; other methods and other names reach the router
+example : wrapServe {} "GET" "/static//a" [.files "/static" ["a"]] = .file "a" ∧
+    wrapServe {} "POST" "/static/a" [.files "/static/" ["a"]] = .router .defaultNotFound ∧
+    wrapServe {} "GET" "/static/a/" [.cors, .files "/static" ["a"]] = .router .defaultNotFound := by decide
 
 /-! ### everything together -/
 
 /-- **rest.Server end to end through its real entry points, for the whole configuration space.**  `NewServer` /
 `MustNewServer` with ANY list of run options (`WithNotFoundHandler`, `WithNotAllowedHandler`, `WithRouter`, `WithChain`,
-`WithCors`, any number, any order), ANY groups with any route options, `Start()` (nested binding loops), then ANY
-request to `server.router.ServeHTTP`: either the CORS middleware answers it — exactly when `WithCors` is in effect and
-the method is `OPTIONS` — or the patRouter answers and the monitor (hence the declarative matcher, over the routes the
-registration rule accepted before its first rejection) accepts the answer. -/
+`WithCors`, `WithCorsHeaders`, `WithCustomCors`, `WithFileServer`; any number, any order), ANY groups with any route
+options, `Start()` (nested binding loops), then ANY request to `server.router.ServeHTTP`: the CORS middleware answers
+it — exactly when a `corsRouter` is in effect and the method is `OPTIONS` —, or a file server in front serves a file
+(a `GET` below its directory that names one of its files), or the patRouter is asked THE SAME method and path and the
+monitor (hence the declarative matcher, over the routes the registration rule accepted before its first rejection)
+accepts its answer. -/
 theorem server_start_serve_is_declarative_matcher (opts : List RunOpt) (groups : List Group) (m p : String) :
     let s := groups.foldl Server.addRoutes (mustNewServer opts)
     let tbl := (bindTable [] s.regs).1
     match s.start.1.serveHTTP m p with
     | .preflight => s.start.1.cors = true ∧ m = "OPTIONS"
+    | .file f => m = "GET" ∧ ∃ d ns, Wrapper.files d ns ∈ s.start.1.wrappers ∧ canServe d ns m p = some f
     | .router resp =>
       resp = s.start.1.router.serveHTTP m p ∧
       monitorObs tbl (oneVarPerPosition tbl) (customOf s.start.1.router) m
@@ -495,12 +622,14 @@ theorem server_start_serve_is_declarative_matcher (opts : List RunOpt) (groups :
   have h4' : monitorObs tbl (oneVarPerPosition tbl) (customOf s.bindRoutes.1.router) m
       (if rooted p then some (cleanToks p) else none) (obsOf (s.bindRoutes.1.router.serveHTTP m p)) = .ok := h4
   rw [← e1] at h4'
-  unfold Server.serveHTTP
-  by_cases hc : (s.start.1.cors && m == "OPTIONS") = true
-  · rw [if_pos hc]
-    simp only [Bool.and_eq_true, beq_iff_eq] at hc
-    exact hc
-  · rw [if_neg hc]
+  cases hr : s.start.1.serveHTTP m p with
+  | preflight =>
+    have := (wrapServe_preflight_iff _ _ _ _).mp hr
+    exact ⟨by simpa [Server.cors] using this.2, this.1⟩
+  | file f => exact wrapServe_file _ _ _ _ _ hr
+  | router resp =>
+    have := wrapServe_router _ _ _ _ _ hr
+    subst this
     exact ⟨rfl, h4'⟩
 
 -- non-vacuity: WithCors + an OPTIONS route: the preflight branch; a GET route: the router branch
@@ -508,5 +637,23 @@ example : ((([({ routes := [("OPTIONS", "/a", some 1), ("GET", "/a", some 2)] } 
     (mustNewServer [.cors])).start.1.serveHTTP "OPTIONS" "/a") = .preflight) ∧
     ((([({ routes := [("OPTIONS", "/a", some 1), ("GET", "/a", some 2)] } : Group)].foldl Server.addRoutes
     (mustNewServer [.cors])).start.1.serveHTTP "GET" "/a") = .router (.route 2 [])) := by decide +kernel
+
+/-! ### the status of a not-found answer of rest.Server -/
+
+/-- **404 when no route matches, through the engine's wrapper**: whatever `WithNotFoundHandler` handler is installed,
+the response status is 404 unless the handler itself wrote a status (then that one) — for every handler that returns;
+a handler that panics or calls `runtime.Goexit` before writing leaves net/http's default. -/
+theorem engine_notFound_status (own : Option Nat) (returns : Bool) :
+    (own = none → returns = true → engineNotFoundStatus own returns = 404) ∧
+    (∀ c, own = some c → engineNotFoundStatus own returns = c) ∧
+    (own = none → returns = false → engineNotFoundStatus own returns = 200) := by
+  refine ⟨?_, ?_, ?_⟩
+  · intro h1 h2; subst h1 h2; rfl
+  · intro c h; subst h; rfl
+  · intro h1 h2; subst h1 h2; rfl
+
+/-- `HeaderOnceResponseWriter`: only the first `WriteHeader` reaches the client. -/
+theorem headerOnce_first_wins (c1 c2 : Nat) :
+    (headerOnceWrite false c1).2 = some c1 ∧ (headerOnceWrite (headerOnceWrite false c1).1 c2).2 = none := ⟨rfl, rfl⟩
 
 end GoZero.C09
